@@ -76,6 +76,26 @@ theorem set_of_not_has (d : Dict) (k : Int) (v : List Nat) (h : Dict.has d k = f
     have hr : Dict.has r k = false := by simpa [has_cons, hk] using h
     simp [Dict.set, hk, ih hr]
 
+/-- `d[k] = [x]` on a missing key is `dadd` -/
+theorem set_singleton_new (d : Dict) (k : Int) (x : Nat) (h : Dict.has d k = false) :
+    Dict.set d k [x] = dadd d k x := by
+  induction d with
+  | nil => rfl
+  | cons e r ih =>
+    obtain ⟨k', l⟩ := e
+    have hk : ¬ k' = k := by
+      intro hk; simp [has_cons, hk] at h
+    have hr : Dict.has r k = false := by simpa [has_cons, hk] using h
+    simp [Dict.set, dadd, hk, ih hr]
+
+/-- `all(r is not None …)` is `not any(r is None …)` -/
+theorem all_isSome_eq {α β : Type} (l : List (α × Option β)) :
+    l.all (fun x => x.2.isSome) = !l.any (fun x => x.2.isNone) := by
+  induction l with
+  | nil => rfl
+  | cons x r ih =>
+    obtain ⟨a, _ | b⟩ := x <;> simp [ih]
+
 theorem appendAt_set_new (d : Dict) (k : Int) (x : Nat) (h : Dict.has d k = false) :
     Dict.appendAt (Dict.set d k []) k x = some (dadd d k x) := by
   rw [set_of_not_has d k [] h, appendAt_append_new d k x h]
@@ -162,9 +182,9 @@ theorem cLock_succ (t : Int) (ns : List Nat) (fuel : Nat) (m : Int) (s : CSt) :
 /-- Leaves of the case analyses. -/
 macro "tie_leaf" : tactic =>
   `(tactic| first
-    | (simp_all [appendAt_setdefault, appendAt_of_has, appendAt_set_new, cLock_succ]; done)
-    | (simp_all [appendAt_setdefault, appendAt_of_has, appendAt_set_new, cLock_succ]; omega)
-    | (simp_all [appendAt_setdefault, appendAt_of_has, appendAt_set_new, cLock_succ]; grind)
+    | (simp_all [appendAt_setdefault, appendAt_of_has, appendAt_set_new, set_singleton_new, all_isSome_eq, cLock_succ]; done)
+    | (simp_all [appendAt_setdefault, appendAt_of_has, appendAt_set_new, set_singleton_new, all_isSome_eq, cLock_succ]; omega)
+    | (simp_all [appendAt_setdefault, appendAt_of_has, appendAt_set_new, set_singleton_new, all_isSome_eq, cLock_succ]; grind)
     | omega
     | grind)
 
